@@ -107,6 +107,15 @@ func Structural(r *rand.Rand, e Env) Frame {
 			h.Options = make([]byte, 4*(1+r.Intn(10)))
 		}
 		f.Kind = "ip4(" + sk + ")/" + kind
+		if proto == 17 && len(l4) >= 8 && r.Intn(12) == 0 {
+			// the first fragment of a datagram larger than the MTU: more-fragments flag, offset 0, and a UDP length field that
+			// speaks for the whole datagram
+			h.Flags, h.FragOff = 1, 0
+			l4 = append([]byte(nil), l4...)
+			whole := len(l4) + 1480*(1+r.Intn(3))
+			l4[4], l4[5] = byte(whole>>8), byte(whole)
+			f.Kind += "/first-fragment"
+		}
 		f.B = refdec.Ether(dst, f.SrcMAC, 0x0800, f.Tags, refdec.IP4(h, l4))
 	case c < 13:
 		f.L3 = "ip6"
